@@ -161,10 +161,12 @@ def cdagListsShards (v : View) : Bool :=
 
 def allShardBlocks (v : View) : List Nat := v.shards.flatMap (·.blocks)
 
+/-- every block of the stream exactly once in `bs`, and nothing else -/
+def shardsPartitionList (bs : List Nat) (stream : List Blk) : Bool :=
+  nodupNat bs && stream.all (fun b => bs.contains b.id) && bs.all (fun x => stream.any (fun b => b.id == x))
+
 /-- every block of the stream in exactly one shard, and nothing else in the shards -/
-def shardsPartition (v : View) : Bool :=
-  let bs := allShardBlocks v
-  nodupNat bs && v.stream.all (fun b => bs.contains b.id) && bs.all (fun x => v.stream.any (fun b => b.id == x))
+def shardsPartition (v : View) : Bool := shardsPartitionList (allShardBlocks v) v.stream
 
 def shardUnderLimit (c : Cfg) (v : View) : Bool :=
   v.shards.all (fun s => decide (((s.blocks.map (sizeIn v.stream)).sum) < c.opts.shard))
